@@ -1,0 +1,19 @@
+//go:build verif
+
+package sink
+
+// Contracts checked by /verif/gocv (comment-only file; see /verif/DESIGN.md §3).
+
+// Reopening an existing log: the state the middleware continues from is the state of the validator that accepted every
+// entry of the file - the hash of the last accepted entry and the validator's buffer of not yet grounded hashes - so
+// the next entry written continues the chain and the next grounding covers exactly the open block.
+//@ func NewFileSink
+//@ mode effects
+//@ trust nonnil serialization.Decoder.Decode
+//@ loop 0 invariant val.Index == 0 && lastHash == nil || val.Index > 0 && same(lastHash, val.PrevHash) && same(hashBuffer, val.HashBuffer)
+//@ effect[C26:recovered-state-is-the-validators] every returns() if err == nil && lastHash != nil
+//@     where result != nil && result.initialState != nil && same(result.initialState.LastHash, val.PrevHash) &&
+//@         same(result.initialState.HashBuffer, val.HashBuffer)
+//@ effect[C26:every-entry-of-the-file-validated] every loop_continues() needs before (*auditlog.Validator).ValidateEntry(_) -> ($verr) where $verr == nil
+//@ effect[C26:nothing-recovered-nothing-claimed] every returns() if err == nil && lastHash == nil
+//@     where result != nil && result.initialState == nil
